@@ -38,11 +38,45 @@ func keyBuildersFaithful(r *core.Run, rule, module string) int {
 		if !ok {
 			continue
 		}
-		for _, cal := range p.Callees(call) {
-			if core.ModuleOf(cal) == module && len(cal.Params) > 0 && cal.Signature.Recv() == nil {
-				builders[cal] = true
+		// the builder called here, or — when the call goes to a method of the record (rec.StoreKey()) that only
+		// forwards — the builder that method calls
+		var visit func(call *ssa.Call, depth int)
+		visit = func(call *ssa.Call, depth int) {
+			for _, cal := range p.Callees(call) {
+				if core.ModuleOf(cal) != module || cal.Blocks == nil {
+					continue
+				}
+				if len(cal.Params) > 0 && cal.Signature.Recv() == nil {
+					builders[cal] = true
+					continue
+				}
+				if depth > 2 {
+					continue
+				}
+				for _, b := range cal.Blocks {
+					ret, isRet := b.Instrs[len(b.Instrs)-1].(*ssa.Return)
+					if !isRet || len(ret.Results) != 1 {
+						continue
+					}
+					w := ret.Results[0]
+					for i := 0; i < 4; i++ {
+						switch x := w.(type) {
+						case *ssa.Convert:
+							w = x.X
+							continue
+						case *ssa.ChangeType:
+							w = x.X
+							continue
+						}
+						break
+					}
+					if inner, isCall := w.(*ssa.Call); isCall {
+						visit(inner, depth+1)
+					}
+				}
 			}
 		}
+		visit(call, 0)
 	}
 	partRe := regexp.MustCompile(`^(?:nil|""|"(?:[^"\\]|\\.)*"|P(\d+)|hex\(P(\d+)\)|dec\(P(\d+)\))$`)
 	var fns []*ssa.Function
